@@ -68,6 +68,14 @@ def cases(seed, tier):
         if not any(k in gen.PROBE_KEX for k in p['kex']):
             p['kex'].insert(0, 'curve25519-sha256')
         perts = rng.sample(PERT, rng.randrange(2, 5))
+        r3 = gen.case_rng(seed, ID, i, 'unsignable')
+        fam = [a for a in p['key'] if a in gen.RSA_FAMILY]
+        if len(fam) >= 2 and r3.random() < 0.3:
+            # the server advertises the whole RSA family but cannot sign with some member (e.g. SHA-1 forbidden by its crypto policy):
+            # the key is still presented, and its size measured, through another member
+            p['unsignable'] = r3.sample(fam, r3.randrange(1, len(fam)))
+            if 'rsa_size' not in perts:
+                perts = perts + ['rsa_size']
         r2 = gen.case_rng(seed, ID, i, 'two-gex')
         if r2.random() < 0.25:
             # both group-exchange algorithms, each measured on its own: a drift of the modulus handed out for one of them only
@@ -235,8 +243,8 @@ def run_case(case, ctx):
         srv1 = r1['servers'][0]
         if field in ('hksize', 'casize', 'catype') and not srv1['hostkeys_sent']:
             continue
-        if field == 'hksize' and not any(hk['alg'] in gen.RSA_FAMILY for hk in srv1['hostkeys_sent']):
-            continue
+        if field == 'hksize' and not [a for a in prof['key'] if a in gen.RSA_FAMILY and a not in prof.get('unsignable', [])]:
+            continue        # no member of the RSA family the server is willing to present a key for
         if field in ('casize', 'catype') and not any('cert' in hk['alg'] for hk in srv1['hostkeys_sent']):
             continue
         if field == 'dh' and not any(rq['answer'] and rq['delivered'] and (rq['min'], rq['n'], rq['max']) != (1024, 2048, 8192) for rq in srv1['gex_requests']):
